@@ -170,6 +170,23 @@ def check(ctx: Ctx) -> str:
                 else:
                     ctx.check(has or pub is False or pub is None and not has, f"{entry}:{n}", f"compiler:CodeGenerator.{entry}", "assignment export bookkeeping", "top-level assignments of public names must be added to exported_vars", "src/jinja2/compiler.py")
     ctx.floor("top-level store paths", n, 10)
+    # the same pairing on every emitted literal, whatever the number of names (the paths above
+    # unroll name lists only up to the loop bound): import visitors only ever *remove* names
+    # from exported_vars, assignments and macros only ever add them
+    import re as _re
+
+    n_lit = 0
+    for fname, allowed in (("visit_Import", {"discard", "difference_update"}), ("visit_FromImport", {"discard", "difference_update"}), ("_import_common", {"discard", "difference_update"}),
+                           ("pop_assign_tracking", {"add", "update"}), ("visit_Macro", {"add", "update"})):
+        fi_ = repo.func(f"compiler:CodeGenerator.{fname}")
+        for k in ast.walk(fi_.node):
+            if isinstance(k, ast.Constant) and isinstance(k.value, str):
+                for meth in _re.findall(r"exported_vars\.(\w+)\(", k.value):
+                    n_lit += 1
+                    ctx.check(meth in allowed, f"literal:{fname}:{meth}", f"compiler:CodeGenerator.{fname}", f"emits exported_vars.{meth}(",
+                              f"{fname} emits `context.exported_vars.{meth}(...)`; {'an import removes the imported names from' if 'discard' in allowed else 'an assignment / macro adds its names to'} the export set (allowed: {sorted(allowed)}): with `{meth}` the names a template imports from elsewhere become part of its own module (`{{% from 'forms' import field %}}` succeeds although forms only imported `field`)",
+                              fi_.loc(k))
+    ctx.floor("exported_vars literals", n_lit, 4)
     pat = repo.func("compiler:CodeGenerator.pop_assign_tracking")
     s = ast.unparse(pat.node)
     ctx.check("public_names = [x for x in vars if x[:1] != '_']" in s and "not frame.block_frame and (not frame.loop_frame) and public_names" in s, "pop_assign_tracking:public", "compiler:CodeGenerator.pop_assign_tracking", "public filter", "only names not starting with '_' assigned at template top level are exported", pat.loc())
